@@ -18,6 +18,22 @@ fn run(path: u8, rt: &tokio::runtime::Runtime, out: &mut Vec<Failure>) {
     }
 }
 
+fn run_lower(path: u8, rt: &tokio::runtime::Runtime, out: &mut Vec<Failure>) {
+    let names = ["set", "batch_set", "commit_transaction"];
+    if let Ok((via_manager, in_db)) = rt.block_on(akd::vx_export::c16_lower_epoch_write(path)) {
+        if via_manager != in_db {
+            out.push(Failure {
+                clause: "timed_cache/TimedCache.put#E_stored".into(),
+                case: vec!["c16".into(), "lower".into(), path.to_string()],
+                input: format!("cached manager: set(epoch record of epoch 5); get; {} of an epoch record with the SMALLER epoch 3 (accepted by the database); get(epoch record)", names[path as usize]),
+                expected: format!("epoch {in_db} (what the database holds)"),
+                observed: format!("epoch {via_manager} (served from the cache)"),
+                finding_id: None,
+            });
+        }
+    }
+}
+
 fn run_flush(others: u8, rt: &tokio::runtime::Runtime, out: &mut Vec<Failure>) {
     if let Ok((via_manager, in_db)) = rt.block_on(akd::vx_export::c16_flush_epoch_record(others)) {
         if via_manager != in_db {
@@ -37,11 +53,12 @@ pub fn search(_seed: u64, _full: bool, rt: &tokio::runtime::Runtime) -> SearchRe
     let mut out = vec![];
     for p in 0..3u8 { run(p, rt, &mut out); }
     for o in [0u8, 1, 3] { run_flush(o, rt, &mut out); }
-    SearchResult { evaluations: 6, failures: out, summary: "flush with only the epoch record cached / with node records cached, then a read of the epoch record; a write rejected by the database through each write path (set, batch_set, transaction commit) of a cached manager, followed by a read".into() }
+    for p in 0..3u8 { run_lower(p, rt, &mut out); }
+    SearchResult { evaluations: 9, failures: out, summary: "flush with only the epoch record cached / with node records cached, then a read of the epoch record; a write rejected by the database through each write path (set, batch_set, transaction commit) of a cached manager, followed by a read; an epoch record with a smaller epoch than the cached one written through each write path, followed by a read".into() }
 }
 
 pub fn replay(case: &[&str], rt: &tokio::runtime::Runtime) -> (bool, String) {
     let mut out = vec![];
-    if case[0] == "flush" { run_flush(case[1].parse().unwrap(), rt, &mut out); } else { run(case[0].parse().unwrap(), rt, &mut out); }
+    if case[0] == "lower" { run_lower(case[1].parse().unwrap(), rt, &mut out); } else if case[0] == "flush" { run_flush(case[1].parse().unwrap(), rt, &mut out); } else { run(case[0].parse().unwrap(), rt, &mut out); }
     match out.first() { Some(f) => (true, format!("{}: expected {}, observed {}", f.input, f.expected, f.observed)), None => (false, "holds".into()) }
 }
